@@ -15,7 +15,7 @@ so that exactly one worker runs at a time and control changes hands only at *yie
                        thread (e.g. the harness' main thread) it is a no-op.
     lock_class(get_sched, on_contended=...)
                        a drop-in replacement for `filelock.SoftFileLock`
-                       (`acquire(timeout=)`, `release()`, context manager, `is_locked`) with the same
+                       (`acquire(timeout=)`, `release()`, `break_lock()`, context manager, `is_locked`) with the same
                        marker-file semantics (O_CREAT|O_EXCL create / unlink of `<file>.lock` on the
                        real directory) that never blocks: potential yield points "acquire" (before
                        every attempt), "acquired", "release" (before the unlink); on a *contended*
@@ -47,6 +47,11 @@ Killing: `Scheduler.kill(name)` abandons a parked worker for good (no `finally` 
 import builtins
 import os
 import threading
+import time
+
+# every marker is created with an mtime this many seconds in the past: the worst case for any "the lock file has been there
+# for too long, its owner must be dead" heuristic.  The unchanged code never looks at the age of a lock file.
+MARKER_AGE = 3600.0
 
 try:  # the real exception type, so that `except Timeout` in the code under test matches
     from filelock import Timeout
@@ -229,6 +234,7 @@ def lock_class(get_sched, on_contended="timeout", max_blocked=1000):
 
     class CoopLock:
         contended_mode = on_contended
+        broken = []      # (marker path, holder's worker name or None) of every break_lock() call
 
         def __init__(self, lock_file, timeout=-1, **kwargs):
             self.lock_file = os.fspath(lock_file)
@@ -251,6 +257,8 @@ def lock_class(get_sched, on_contended="timeout", max_blocked=1000):
                 try:
                     fd = os.open(self.lock_file, os.O_CREAT | os.O_EXCL | os.O_WRONLY, 0o644)
                     os.close(fd)
+                    old = time.time() - MARKER_AGE
+                    os.utime(self.lock_file, (old, old))
                     break
                 except FileExistsError:
                     if sched is not None:
@@ -285,6 +293,24 @@ def lock_class(get_sched, on_contended="timeout", max_blocked=1000):
             w = sched.current() if sched is not None else None
             if w is not None and self.lock_file in w.locks:
                 w.locks.remove(self.lock_file)
+
+        def break_lock(self):
+            """`SoftFileLock.break_lock()` of filelock >= 3.13 (3.32.7 has it): remove the marker WHOEVER created it.  The
+            event is noted on the calling worker (`("break_lock", path)` in `worker.notes`) and in `CoopLock.broken`
+            (path, name of the worker that holds the marker or None) so that a suite can state that the marker of a live
+            holder was never removed by somebody else."""
+            sched = get_sched()
+            holder = None
+            if sched is not None:
+                sched.note("break_lock", self.lock_file)
+                for w in sched.workers.values():
+                    if self.lock_file in w.locks and w is not sched.current():
+                        holder = w.name
+            CoopLock.broken.append((self.lock_file, holder))
+            try:
+                os.unlink(self.lock_file)
+            except FileNotFoundError:
+                pass
 
         def __enter__(self):
             self.acquire()
